@@ -82,7 +82,43 @@ class P:
             return f.get("E") == "nil" and ncomments == hexp[c]
         hpart = {"name": "hash-inside-word", "harness": "parse", "driver": None, "cases": hw, "impl_ok": hash_ok,
                  "nontrivial": lambda c: True, "distribution": {"cases": len(hw)}}
-        return [deriv, hpart] + token_parts(rnd, tier, 3000 if tier == "quick" else 40000)
+        # comments inside substitutions at every nesting depth and in every kind of enclosing expansion are returned, in source
+        # order, with their positions (expected list computed from the text: every '#' here that is preceded by a blank starts one)
+        subs = ["$(X)", "`X`", "$(( $(X) + 1 ))", "$(( `X` ))", "\"$(X)\"", "${y:-$(X)}", "$(( 1 + $(( $(X) )) ))", "$(echo $(X))", "$(echo $(( $(X) )))",
+                "\"$(( $(X) ))\"", "${y:-$(( $(X) ))}", "$(( ${y:-$(X)} ))", "$(( \"$(X)\" ))"]
+        inner = ["a # c\n", "a # c1\nb # c2\n", "# only\na\n", "a | # p\nb\n", "if a; then # t\nb; fi # f\n"]
+        outer = ["echo %s\n", "echo %s # tail\n", "x=%s\n", "(( %s ))\n", "cat <<E\n%s\nE\n", "if a %s; then # u\n:; fi\n", "echo %s %s\n"]
+        nc, nexp = [], {}
+        for sb in subs:
+            for i_ in inner:
+                for o_ in outer:
+                    if o_.startswith("((") and not sb.startswith(("$(", "`")):
+                        continue
+                    if "`" in sb and "if a;" in i_ and False:
+                        continue
+                    w_ = sb.replace("X", i_)
+                    src = o_ % ((w_,) * o_.count("%s"))
+                    exp, line, col = [], 1, 1
+                    for k_, ch in enumerate(src):
+                        if ch == "#" and k_ > 0 and src[k_ - 1] in " (`":
+                            text = src[k_ + 1:src.index("\n", k_)]
+                            exp.append("%d.%d.%s" % (line, col, hx(text)))
+                        if ch == "\n":
+                            line, col = line + 1, 1
+                        else:
+                            col += 1
+                    c_ = G.pcase(src)
+                    nc.append(c_)
+                    nexp[c_] = ",".join(exp)
+
+        def nested_ok(c, o):
+            if not o.startswith("ok "):
+                return False
+            f = dict(x.split("=", 1) for x in o.split(" ")[1:])
+            return f.get("E") == "nil" and f.get("M", "") == nexp[c]
+        npart = {"name": "comments-in-nested-substitutions", "harness": "parse", "driver": None, "cases": nc, "impl_ok": nested_ok,
+                 "nontrivial": lambda c: True, "distribution": {"cases": len(nc), "enclosing_expansions": len(subs)}}
+        return [deriv, hpart, npart] + token_parts(rnd, tier, 3000 if tier == "quick" else 40000)
 
     def describe(self, part, case):
         if len(case.split("\t")) == 3 and "#" in case.split("\t")[1]:
